@@ -247,6 +247,9 @@ impl StreamsState {
         self.pending.clear();
         self.send_streams = 0;
         self.data_sent = 0;
+        // Forget the remembered connection-level limit: the new transport parameters may
+        // advertise less, and `received_max_data` only ever raises it
+        self.max_data = 0;
         // The early streams are gone and will never be acknowledged
         self.unacked_data = 0;
         self.connection_blocked.clear();
